@@ -56,10 +56,13 @@ pub enum Ext {
     MpRepInterleaved,
     /// ... as `f, g, f, g, f`
     MpRepInterleaved3,
+    /// a field whose wire name differs from the Rust field name (`#[multipart(rename = "f")]`)
+    /// with a field-level limit
+    MpRenamedField,
 }
 
 impl Ext {
-    const ALL: [Ext; 15] = [
+    const ALL: [Ext; 16] = [
         Ext::Bytes,
         Ext::String,
         Ext::Json,
@@ -75,6 +78,7 @@ impl Ext {
         Ext::MpRepAdjacent,
         Ext::MpRepInterleaved,
         Ext::MpRepInterleaved3,
+        Ext::MpRenamedField,
     ];
     fn name(self) -> &'static str {
         match self {
@@ -93,6 +97,7 @@ impl Ext {
             Ext::MpRepAdjacent => "multipart-repeated-field-limit-adjacent",
             Ext::MpRepInterleaved => "multipart-repeated-field-limit-interleaved",
             Ext::MpRepInterleaved3 => "multipart-repeated-field-limit-interleaved3",
+            Ext::MpRenamedField => "multipart-renamed-field-limit",
         }
     }
     fn is_mp(self) -> bool {
@@ -106,6 +111,7 @@ impl Ext {
                 | Ext::MpRepAdjacent
                 | Ext::MpRepInterleaved
                 | Ext::MpRepInterleaved3
+                | Ext::MpRenamedField
         )
     }
     /// the limited field `f` arrives in several parts
@@ -301,6 +307,38 @@ mp_limited! {
     "100B", 100 => MpT100, MpB100;
     "1000B", 1000 => MpT1000, MpB1000;
     "4096B", 4096 => MpT4096, MpB4096;
+}
+
+macro_rules! mp_renamed {
+    ($($lim:literal, $n:literal => $ty:ident;)*) => {
+        $(
+            #[derive(MultipartForm)]
+            struct $ty { #[multipart(rename = "f", limit = $lim)] payload_bytes: MpBytes }
+            impl MpGet for $ty { fn data(self) -> Vec<u8> { self.payload_bytes.data.to_vec() } }
+        )*
+        async fn mp_renamed_field(limit: usize, req: &HttpRequest, pl: &mut dev::Payload) -> Result<Vec<u8>, actix_web::Error> {
+            match limit {
+                $( $n => mp_run::<$ty>(req, pl).await, )*
+                _ => mc_core::machinery(format!("no renamed-field multipart form type for field limit {limit}")),
+            }
+        }
+    };
+}
+
+mp_renamed! {
+    "0B", 0 => MpN0;
+    "1B", 1 => MpN1;
+    "2B", 2 => MpN2;
+    "3B", 3 => MpN3;
+    "8B", 8 => MpN8;
+    "4B", 4 => MpN4;
+    "5B", 5 => MpN5;
+    "10B", 10 => MpN10;
+    "16B", 16 => MpN16;
+    "64B", 64 => MpN64;
+    "100B", 100 => MpN100;
+    "1000B", 1000 => MpN1000;
+    "4096B", 4096 => MpN4096;
 }
 
 macro_rules! mp_repeated {
@@ -573,6 +611,10 @@ async fn extract(case: &Case12, req: &HttpRequest, pl: &mut dev::Payload, want: 
                 Err(e) => classify_web_error(&e),
             }
         }
+        Ext::MpRenamedField => match mp_renamed_field(case.limit, req, pl).await {
+            Ok(b) => ok_outcome(&b, want),
+            Err(e) => classify_web_error(&e),
+        },
         Ext::Mp2Total => match mp_run::<Mp2Free>(req, pl).await {
             Ok(b) => ok_outcome(&b, want),
             Err(e) => classify_web_error(&e),
@@ -983,7 +1025,7 @@ pub fn enumerate(tier: &str) -> Vec<Case12> {
             if big && ext.is_mp() {
                 continue;
             }
-            if (matches!(ext, Ext::MpTextField | Ext::MpBytesField) || ext.is_mp_repeated()) && !MP_FIELD_LIMITS.contains(&limit) {
+            if (matches!(ext, Ext::MpTextField | Ext::MpBytesField | Ext::MpRenamedField) || ext.is_mp_repeated()) && !MP_FIELD_LIMITS.contains(&limit) {
                 continue;
             }
             let lens = if big { vec![limit - 1, limit, limit + 1, limit + limit / 5] } else { lens_for(limit) };
